@@ -12,11 +12,22 @@ import shutil
 import subprocess
 import tempfile
 
-from .core import Ctx, RULES
+from .core import Ctx, RULES, load_known
 from .model import AnalysisError
 
 HERE = os.path.dirname(os.path.abspath(__file__))
 VERIF = os.path.dirname(HERE)
+
+
+def _known_keys():
+    return {(e.get("rule"), e.get("site"), e.get("construct")) for e in load_known(os.path.join(VERIF, "known_findings.json"))
+            if e.get("status") == "finding"}
+
+
+def _new_violations(ctx, rid):
+    """Violations of a rule on a scratch tree, minus the recorded known findings."""
+    known = _known_keys()
+    return [o for o in ctx.rule_result(rid).violations() if (o.rule, o.site, o.construct) not in known]
 
 
 def _seeded_case(args):
@@ -35,7 +46,7 @@ def _seeded_case(args):
         errors = {}
         for rid in rules:
             try:
-                v = ctx.rule_result(rid).violations()
+                v = _new_violations(ctx, rid)
                 if v:
                     fired[rid] = [f"{o.site.split('::')[-1]} :: {o.construct[:70]}" for o in v[:3]]
             except AnalysisError as exc:
@@ -64,7 +75,7 @@ def _benign_case(args):
         fired, errors = {}, {}
         for rid in rules:
             try:
-                v = ctx.rule_result(rid).violations()
+                v = _new_violations(ctx, rid)
                 if v:
                     fired[rid] = [f"{o.site.split('::')[-1]} :: {o.construct[:60]}" for o in v[:2]]
             except AnalysisError as exc:
@@ -78,9 +89,7 @@ def _benign_case(args):
         shutil.rmtree(root, ignore_errors=True)
 
 
-ACCEPTED_MISSES = {
-    "C06-s1": "title-format regex round trip (needs the identity itself, which the rules do not decide; see DESIGN section 6)",
-}
+ACCEPTED_MISSES = {}  # none: C06-s1 (title-format round trip) is decided by rule N4 since the regex constants are read statically
 
 
 def run(pid, spec, ctx, repo):
@@ -127,7 +136,7 @@ def run(pid, spec, ctx, repo):
         for bid in sorted(os.listdir(bbase)):
             d = os.path.join(bbase, bid)
             if os.path.exists(os.path.join(d, "patch.diff")):
-                bwork.append((bid, d, repo, [r for r in rules if r not in ("N2", "A3")]))
+                bwork.append((bid, d, repo, list(rules)))
     bres = []
     if bwork:
         import multiprocessing as mp_
